@@ -27,7 +27,9 @@ CONSTANTS MaxRuns,      \* runs per behaviour
           Probs,        \* the problems that may be reported (subset of Problems)
           Pads,         \* numbers of old review comments of other people that precede everything else on the pull request
           Padfs,        \* numbers of other files of the pull request listed before the rule files
-          Showdups      \* subset of BOOLEAN: --show-duplicates
+          Showdups,     \* subset of BOOLEAN: --show-duplicates
+          FaultOps,     \* platform calls that may fail in a run: subset of {"list", "create", "delete", "summary"}
+          FaultKs       \* ... the k-th such call of the run fails
 
 -----------------------------------------------------------------------------
 (* The universe of problems: 4 problems over 2 files. P1 and P2 come from   *)
@@ -35,19 +37,22 @@ CONSTANTS MaxRuns,      \* runs per behaviour
 (* P5 and P6 are two problems of one check with the same message whose line ranges start on the same line and end  *)
 (* on different ones (alerts/template "use humanize filters": expression line .. annotation line); Summary.Dedup     *)
 (* folds P6 into P5 as a duplicate, so they are reported separately only with --show-duplicates (cfg.showdup).       *)
-Problems == {"P1", "P2", "P3", "P4", "P5", "P6"}
-ProbOrder == <<"P1", "P2", "P3", "P5", "P6", "P4">>          \* order after Summary.SortReports
-PFile(p)  == IF p = "P4" THEN "F2" ELSE "F1"
+(* P7 is a problem about a rule the pull request REMOVES (rule/dependency: another rule still uses its metric): its *)
+(* lines 8-9 are lines of the old revision of F2, its comment is anchored "before" (on the removed line).             *)
+Problems == {"P1", "P2", "P3", "P4", "P5", "P6", "P7"}
+ProbOrder == <<"P1", "P2", "P3", "P5", "P6", "P4", "P7">>          \* order after Summary.SortReports
+PFile(p)  == IF p \in {"P4", "P7"} THEN "F2" ELSE "F1"
 PSev(p)   == CASE p = "P3" -> "Bug" [] p \in {"P5", "P6"} -> "Information" [] OTHER -> "Warning"
-PRep(p)   == IF p \in {"P3", "P5", "P6"} THEN "alerts/template" ELSE "promql/regexp"
-PFirst(p) == CASE p \in {"P1", "P2"} -> 6 [] p = "P3" -> 11 [] p \in {"P5", "P6"} -> 16 [] OTHER -> 5
-PLast(p)  == CASE p \in {"P1", "P2"} -> 8 [] p = "P3" -> 14 [] p = "P5" -> 18 [] p = "P6" -> 19 [] OTHER -> 5
+PRep(p)   == CASE p \in {"P3", "P5", "P6"} -> "alerts/template" [] p = "P7" -> "rule/dependency" [] OTHER -> "promql/regexp"
+PFirst(p) == CASE p \in {"P1", "P2"} -> 6 [] p = "P3" -> 11 [] p \in {"P5", "P6"} -> 16 [] p = "P7" -> 8 [] OTHER -> 5
+PLast(p)  == CASE p \in {"P1", "P2"} -> 8 [] p = "P3" -> 14 [] p = "P5" -> 18 [] p = "P6" -> 19 [] p = "P7" -> 9 [] OTHER -> 5
+PAnchor(p) == IF p = "P7" THEN "before" ELSE "after"
 
 Variants == [shift : Shifts, mod : Mods]
 ShiftOf(f, v) == IF f = "F1" THEN v.shift ELSE 0
 \* lines of file f touched by the pull request under variant v
 Modified(f, v) ==
-  IF f = "F2" THEN 4..7
+  IF f = "F2" THEN 4..11
   ELSE IF v.mod = "all" THEN (4 + v.shift)..(19 + v.shift) ELSE {6 + v.shift}
 SetMax(S) == CHOOSE x \in S : \A y \in S : y <= x
 SetMin(S) == CHOOSE x \in S : \A y \in S : x <= y
@@ -55,14 +60,16 @@ SetMin(S) == CHOOSE x \in S : \A y \in S : x <= y
 \* A report as far as dedupReports/makeComments read it.
 Report(p, v) == [id |-> p, sev |-> PSev(p), rep |-> PRep(p), path |-> PFile(p),
                  first |-> PFirst(p) + ShiftOf(PFile(p), v), last |-> PLast(p) + ShiftOf(PFile(p), v),
-                 mod |-> Modified(PFile(p), v)]
+                 anchor |-> PAnchor(p),
+                 \* ModifiedLines of a removed rule are its lines in the old revision
+                 mod |-> IF PAnchor(p) = "before" THEN PFirst(p)..PLast(p) ELSE Modified(PFile(p), v)]
 Reports(R, v) == LET keep(p) == p \in R IN
                  [k \in 1..Len(SelectSeq(ProbOrder, keep)) |-> Report(SelectSeq(ProbOrder, keep)[k], v)]
 
 -----------------------------------------------------------------------------
 (* Impl: dedupReports + makeComments                                        *)
 SameGroup(a, b) == /\ a.sev = b.sev /\ a.rep = b.rep /\ a.path = b.path
-                   /\ a.first = b.first /\ a.last = b.last       \* anchor: always AnchorAfter here
+                   /\ a.first = b.first /\ a.last = b.last /\ a.anchor = b.anchor
 
 \* index of the first group whose head has the same key, 0 if none
 GroupIndex(dst, r) ==
@@ -88,23 +95,29 @@ PendingLine(r) == LET m == r.mod \cap (r.first..r.last) IN IF m = {} THEN r.last
 
 MakeComments(R, v) ==
   LET groups == DedupReports(Reports(R, v)) IN
-  [k \in 1..Len(groups) |-> [path |-> groups[k][1].path, line |-> PendingLine(groups[k][1]), text |-> Text(groups[k], v)]]
+  [k \in 1..Len(groups) |-> [path |-> groups[k][1].path, line |-> PendingLine(groups[k][1]), text |-> Text(groups[k], v),
+                              anchor |-> groups[k][1].anchor]]
 
 -----------------------------------------------------------------------------
 (* Impl: platform hooks                                                     *)
-\* github.go fixCommentLine (AnchorAfter): a line outside the diff moves to the first modified line
-FixLine(plat, path, line, v) ==
-  IF plat = "github" /\ line \notin Modified(path, v) /\ Modified(path, v) # {}
-  THEN SetMin(Modified(path, v)) ELSE line
+\* github.go fixCommentLine. AnchorAfter: a line outside the diff moves to the first modified line. AnchorBefore: the
+\* old-side line number is looked up among the NEW line numbers of the patch (diffLineFor); when that new line was
+\* modified the comment goes to its old-side counterpart (GhBeforeLine, a function of the patch), else to the first
+\* modified line. GitLab (gitlab.go reportToGitLabDiscussion, after fix F20): the old-side line itself.
+GhBeforeLine == 6         \* old-side counterpart of new line 9 of F2 in the patch of the pull request (see exec_c17.go)
+FixLine(plat, p, v) ==
+  IF p.anchor = "before" THEN (IF plat = "github" THEN GhBeforeLine ELSE p.line)
+  ELSE IF plat = "github" /\ p.line \notin Modified(p.path, v) /\ Modified(p.path, v) # {}
+  THEN SetMin(Modified(p.path, v)) ELSE p.line
 \* IsEqual of both platforms: path, (fixed) line, text modulo leading/trailing newlines
 IsEqual(plat, v, e, p) == /\ e.path = p.path
-                          /\ e.line = FixLine(plat, p.path, p.line, v)
+                          /\ e.line = FixLine(plat, p, v)
                           /\ e.text = p.text                  \* strings.Trim(.., "\n") : field nl is ignored
 CanCreate(max, done) == done < max
 CanDelete(plat) == plat = "gitlab"
 
 \* Environment: what the platform stores for a created comment / returns from List
-Created(plat, strip, v, p) == [path |-> p.path, line |-> FixLine(plat, p.path, p.line, v), text |-> p.text,
+Created(plat, strip, v, p) == [path |-> p.path, line |-> FixLine(plat, p, v), text |-> p.text,
                                nl |-> IF strip THEN 0 ELSE 1, mine |-> TRUE]
 \* positions of the store List() returns: GitLab filters on the author, GitHub returns every review comment
 Listed(plat, st) == LET ok(k) == plat = "github" \/ st[k].mine IN
@@ -128,36 +141,57 @@ RemoveAll(s, D, k) == IF k = 0 THEN s ELSE RemoveAll(IF k \in D THEN RemoveAt(s,
 -----------------------------------------------------------------------------
 (* Fold of one whole run (used by trace validation; the state machine below *)
 (* performs the same decisions one action at a time).                       *)
-Call(op, a, b) == [op |-> op, a |-> a, b |-> b]
-RECURSIVE CreateLoop(_, _, _, _, _, _)
-\* acc = [created, calls, newc]
-CreateLoop(c, v, listed, pend, k, acc) ==
-  IF k > Len(pend) THEN acc
+\* Failures of the platform (comments.go): List fails -> Submit returns the error, nothing happened; Create fails ->
+\* `return err` at once (no further creation, no deletion, no summary); Delete fails -> the error is collected, the
+\* loop goes on, Summary receives the collected errors; Summary fails -> Submit returns the error.
+\* A fault [op, k] makes the k-th call of that kind in the run fail (if the run gets that far).
+NoFault == [op |-> "none", k |-> 0]
+Faults == {NoFault} \cup [op : FaultOps, k : FaultKs]
+Call(op, a, b) == [op |-> op, a |-> a, b |-> b]          \* b = 2: the call failed
+RECURSIVE CreateLoop(_, _, _, _, _, _, _)
+\* acc = [created, calls, newc, aborted]
+CreateLoop(c, v, ft, listed, pend, k, acc) ==
+  IF k > Len(pend) \/ acc.aborted THEN acc
   ELSE LET d == CreateDecision(c.plat, v, c.max, listed, pend[k], acc.created) IN
-       CreateLoop(c, v, listed, pend, k + 1,
+       CreateLoop(c, v, ft, listed, pend, k + 1,
          CASE d = "skip"   -> acc
            [] d = "refuse" -> [acc EXCEPT !.calls = Append(@, Call("cancreate", acc.created, 0))]
-           [] OTHER        -> [created |-> acc.created + 1,
-                               calls |-> acc.calls \o <<Call("cancreate", acc.created, 1), Call("create", k, 0)>>,
-                               newc |-> Append(acc.newc, Created(c.plat, c.strip, v, pend[k]))])
-RECURSIVE DeleteLoop(_, _, _, _, _, _, _)
-\* acc = [calls, deleted]
-DeleteLoop(c, v, st, listedPos, pend, k, acc) ==
+           [] OTHER        ->
+              IF ft.op = "create" /\ ft.k = acc.created + 1
+              THEN [acc EXCEPT !.calls = @ \o <<Call("cancreate", acc.created, 1), Call("create", k, 2)>>, !.aborted = TRUE]
+              ELSE [created |-> acc.created + 1, aborted |-> FALSE,
+                    calls |-> acc.calls \o <<Call("cancreate", acc.created, 1), Call("create", k, 0)>>,
+                    newc |-> Append(acc.newc, Created(c.plat, c.strip, v, pend[k]))])
+RECURSIVE DeleteLoop(_, _, _, _, _, _, _, _)
+\* acc = [calls, deleted, ncalls, nerrs]
+DeleteLoop(c, v, ft, st, listedPos, pend, k, acc) ==
   IF k > Len(listedPos) THEN acc
   ELSE LET d == DeleteDecision(c.plat, v, st[listedPos[k]], pend) IN
-       DeleteLoop(c, v, st, listedPos, pend, k + 1,
+       DeleteLoop(c, v, ft, st, listedPos, pend, k + 1,
          CASE d = "keep"     -> acc
            [] d = "nodelete" -> [acc EXCEPT !.calls = Append(@, Call("candelete", listedPos[k], 0))]
-           [] OTHER          -> [calls |-> acc.calls \o <<Call("candelete", listedPos[k], 1), Call("delete", listedPos[k], 0)>>,
-                                 deleted |-> acc.deleted \cup {listedPos[k]}])
-RunFold(c, st, pend, v) ==
+           [] OTHER          ->
+              IF ft.op = "delete" /\ ft.k = acc.ncalls + 1
+              THEN [acc EXCEPT !.calls = @ \o <<Call("candelete", listedPos[k], 1), Call("delete", listedPos[k], 2)>>,
+                               !.ncalls = @ + 1, !.nerrs = @ + 1]
+              ELSE [acc EXCEPT !.calls = @ \o <<Call("candelete", listedPos[k], 1), Call("delete", listedPos[k], 0)>>,
+                               !.ncalls = @ + 1, !.deleted = @ \cup {listedPos[k]}])
+RunFold(c, st, pend, v, ft) ==
+  IF ft.op = "list"
+  THEN [listed |-> <<>>, creates |-> <<>>, deleted |-> {}, calls |-> <<Call("list", 0, 2)>>, after |-> st,
+        err |-> TRUE, nerrs |-> 0, hit |-> TRUE]
+  ELSE
   LET lp == Listed(c.plat, st)
       listed == [k \in 1..Len(lp) |-> st[lp[k]]]
-      cr == CreateLoop(c, v, listed, pend, 1, [created |-> 0, calls |-> <<>>, newc |-> <<>>])
-      dl == DeleteLoop(c, v, st, lp, pend, 1, [calls |-> <<>>, deleted |-> {}]) IN
+      cr == CreateLoop(c, v, ft, listed, pend, 1, [created |-> 0, calls |-> <<>>, newc |-> <<>>, aborted |-> FALSE])
+      dl == IF cr.aborted THEN [calls |-> <<>>, deleted |-> {}, ncalls |-> 0, nerrs |-> 0]
+            ELSE DeleteLoop(c, v, ft, st, lp, pend, 1, [calls |-> <<>>, deleted |-> {}, ncalls |-> 0, nerrs |-> 0])
+      sm == IF cr.aborted THEN <<>> ELSE <<Call("summary", dl.nerrs, IF ft.op = "summary" THEN 2 ELSE 0)>> IN
   [listed |-> lp, creates |-> cr.newc, deleted |-> dl.deleted,
-   calls |-> cr.calls \o dl.calls \o <<Call("summary", 0, 0)>>,
-   after |-> RemoveAll(st, dl.deleted, Len(st)) \o cr.newc]
+   calls |-> cr.calls \o dl.calls \o sm,
+   after |-> RemoveAll(st, dl.deleted, Len(st)) \o cr.newc,
+   err |-> (cr.aborted \/ ft.op = "summary"), nerrs |-> dl.nerrs,
+   hit |-> (cr.aborted \/ dl.nerrs > 0 \/ ft.op = "summary")]
 
 -----------------------------------------------------------------------------
 (* Doc side. An observation of one finished run:                            *)
@@ -172,7 +206,7 @@ DocShift(p, v) == ShiftOf(PFile(p), v)
 \* "at its file and line": the line pint comments a problem on is the last line of its range that the pull request
 \* modified, else the last line of the range; GitHub only accepts modified lines, a problem without one is shown on
 \* the first modified line of the file (written here from the documentation/changelog, not from makeComments)
-ClassOf(p) == <<PRep(p), PSev(p), PFile(p), PFirst(p), PLast(p)>>
+ClassOf(p) == <<PRep(p), PSev(p), PFile(p), PFirst(p), PLast(p), PAnchor(p)>>
 DocLine(plat, K, v) ==
   LET f == K[3]
       lo == K[4] + ShiftOf(f, v)
@@ -180,22 +214,26 @@ DocLine(plat, K, v) ==
       m == Modified(f, v) \cap (lo..hi)
       ln == IF m = {} THEN hi ELSE SetMax(m) IN
   IF plat = "github" /\ ln \notin Modified(f, v) /\ Modified(f, v) # {} THEN SetMin(Modified(f, v)) ELSE ln
-AtItsLine(plat, p, v, c) == c.path = PFile(p) /\ c.line = DocLine(plat, ClassOf(p), v)
+\* for a problem on a removed rule the documentation does not say which side/line of the diff carries the comment
+AtItsLine(plat, p, v, c) == c.path = PFile(p) /\ (PAnchor(p) = "before" \/ c.line = DocLine(plat, ClassOf(p), v))
 CoversProblem(plat, p, v, c) == AtItsLine(plat, p, v, c) /\ p \in c.text.m
 SameComment(a, b) == a.path = b.path /\ a.line = b.line /\ a.text = b.text
 \* problems of one check on the same lines share a comment
 Classes(R) == {ClassOf(p) : p \in R}
 CeilDiv(a, b) == (a + b - 1) \div b
 
+\* o.hit: a call to the platform failed during the run; o.err: the run ended with an error; o.nerrs: number of
+\* errors handed to the summary. A run in which nothing failed is clean; only clean runs owe full reconciliation.
+Clean(o) == ~o.hit
 Covered(o) ==
   /\ Len(o.creates) <= o.max
-  /\ \A p \in o.reports : \/ \E k \in 1..Len(o.after) : CoversProblem(o.plat, p, o.var, o.after[k])
+  /\ Clean(o) => \A p \in o.reports : \/ \E k \in 1..Len(o.after) : CoversProblem(o.plat, p, o.var, o.after[k])
                           \/ Len(o.creates) = o.max                  \* the rest waits for a later run
 \* "one that already existed and was recognised": a problem class whose comment existed before the run (on its
 \* file, on the line pint comments on, spelling out exactly the reported problems of the class, visible to pint)
 \* is not waiting for the budget - it is still covered afterwards.
 ClassMembers(R, K) == {p \in R : ClassOf(p) = K}
-ExactCover(plat, R, K, v, c) == c.path = K[3] /\ c.line = DocLine(plat, K, v) /\ c.text.m = ClassMembers(R, K)
+ExactCover(plat, R, K, v, c) == c.path = K[3] /\ (K[6] = "before" \/ c.line = DocLine(plat, K, v)) /\ c.text.m = ClassMembers(R, K)
 Recognisable(plat, c) == plat = "github" \/ c.mine
 KeepsCovered(o) ==
   \A K \in Classes(o.reports) :
@@ -206,29 +244,32 @@ NoTwin(o) ==
 Corresponds(o, c) == \E p \in o.reports : CoversProblem(o.plat, p, o.var, c)
 StaleGone(o) ==
   \A n \in 1..Len(o.before) :
-     (o.before[n].mine /\ CanDelete(o.plat) /\ ~Corresponds(o, o.before[n])) => n \in o.deleted
+     (Clean(o) /\ o.before[n].mine /\ CanDelete(o.plat) /\ ~Corresponds(o, o.before[n])) => n \in o.deleted
 ForeignUntouched(o) == \A n \in 1..Len(o.before) : ~o.before[n].mine => n \notin o.deleted
 \* budget not exhausted by the previous identical run => nothing was waiting => nothing to do now
 Idempotent(o) ==
-  (o.prevSame /\ o.prevCreates >= 0 /\ o.prevCreates < o.max) => (o.creates = <<>> /\ o.deleted = {})
+  (Clean(o) /\ o.prevSame /\ o.prevCreates >= 0 /\ o.prevCreates < o.max) => (o.creates = <<>> /\ o.deleted = {})
 Converges(o) ==
-  (o.max >= 1 /\ o.streak >= CeilDiv(Cardinality(Classes(o.reports)), o.max)) =>
+  (Clean(o) /\ o.max >= 1 /\ o.streak >= CeilDiv(Cardinality(Classes(o.reports)), o.max)) =>
      \A p \in o.reports : \E k \in 1..Len(o.after) : CoversProblem(o.plat, p, o.var, o.after[k])
 \* what is deleted was listed, what is new is what was created
+\* (a failed creation is not among o.creates, a failed deletion not in o.deleted: the store must agree)
 Accounting(o) == o.after = RemoveAll(o.before, o.deleted, Len(o.before)) \o o.creates
+\* a failure never goes unnoticed: the run fails, or the errors reach the summary comment
+ErrReported(o) == o.hit => (o.err \/ o.nerrs > 0)
 
-DocFails(o) == {n \in {"Covered", "KeepsCovered", "NoTwin", "StaleGone", "ForeignUntouched", "Idempotent", "Converges", "Accounting"} :
+DocFails(o) == {n \in {"Covered", "KeepsCovered", "NoTwin", "StaleGone", "ForeignUntouched", "Idempotent", "Converges", "Accounting", "ErrReported"} :
    CASE n = "Covered" -> ~Covered(o) [] n = "KeepsCovered" -> ~KeepsCovered(o) [] n = "NoTwin" -> ~NoTwin(o) [] n = "StaleGone" -> ~StaleGone(o)
      [] n = "ForeignUntouched" -> ~ForeignUntouched(o) [] n = "Idempotent" -> ~Idempotent(o)
-     [] n = "Converges" -> ~Converges(o) [] OTHER -> ~Accounting(o)}
+     [] n = "Converges" -> ~Converges(o) [] n = "ErrReported" -> ~ErrReported(o) [] OTHER -> ~Accounting(o)}
 
 -----------------------------------------------------------------------------
 (* State machine                                                            *)
-VARIABLES cfg,       \* [plat, max, strip]: fixed per behaviour
+VARIABLES cfg,       \* [plat, max, strip, pad, padf, showdup]: fixed per behaviour
           store,     \* the platform's comments, in creation order
-          pc,        \* "seed" | "idle" | "create" | "delete" | "summary"
+          pc,        \* "seed" | "idle" | "create" | "delete" | "summary" | "aborted" | "done"
           runs,      \* finished runs
-          inp,       \* [reports, var] of the current run
+          inp,       \* [reports, var, fault] of the current run
           before,    \* store when List() was answered
           existing,  \* positions of `before` returned by List()
           pending,   \* makeComments(...)
@@ -241,14 +282,14 @@ vars == <<cfg, store, pc, runs, inp, before, existing, pending, i, j, created, n
 view == <<cfg, store, pc, runs, inp, before, existing, pending, i, j, created, newc, deleted,
           prevInp, prevCreates, streak, lastSeed>>
 
-NoInp == [reports |-> {}, var |-> [shift |-> 0 - 1, mod |-> "none"]]
+NoInp == [reports |-> {}, var |-> [shift |-> 0 - 1, mod |-> "none"], fault |-> NoFault]
+SameResults(a, b) == a.reports = b.reports /\ a.var = b.var
 
 \* Comments that may exist before the first run: every comment some run could have left behind (matching
 \* now or stale later), comments nobody will ever match, and comments of other users (identical to one
 \* of ours, or unrelated).
-AllVariants == [shift : {0, 1}, mod : {"all", "first"}]
 OwnCands(plat) ==
-  UNION {{[path |-> c.path, line |-> FixLine(plat, c.path, c.line, v), text |-> c.text, nl |-> 1, mine |-> TRUE] :
+  UNION {{[path |-> c.path, line |-> FixLine(plat, c, v), text |-> c.text, nl |-> 1, mine |-> TRUE] :
             c \in RangeSeq(MakeComments(R, v))} : <<R, v>> \in (SUBSET Probs) \X Variants}
 SeedCands(plat) ==
   OwnCands(plat)
@@ -283,16 +324,16 @@ Seed(k) ==
                  prevInp, prevCreates, streak, hist>>
 
 \* Submit -> updateDestination: List(), makeComments()
-StartRun(R, v) ==
+StartRun(R, v, ft) ==
   /\ pc \in {"seed", "idle"} /\ runs < MaxRuns
-  /\ inp' = [reports |-> R, var |-> v]
+  /\ inp' = [reports |-> R, var |-> v, fault |-> ft]
   /\ before' = store
-  /\ existing' = Listed(cfg.plat, store)
-  /\ pending' = MakeComments(R, v)
+  /\ IF ft.op = "list"
+     THEN existing' = <<>> /\ pending' = <<>> /\ pc' = "aborted"          \* `return err` right after c.List()
+     ELSE existing' = Listed(cfg.plat, store) /\ pending' = MakeComments(R, v) /\ pc' = "create"
   /\ i' = 1 /\ j' = 1 /\ created' = 0 /\ newc' = <<>> /\ deleted' = {}
-  /\ pc' = "create"
   /\ hist' = [seeds |-> IF pc = "seed" THEN store ELSE hist.seeds,
-              runs |-> Append(hist.runs, [reports |-> R, var |-> v])]
+              runs |-> Append(hist.runs, [reports |-> R, var |-> v, fault |-> ft])]
   /\ UNCHANGED <<cfg, store, runs, prevInp, prevCreates, streak, lastSeed>>
 
 ListedComments == [k \in 1..Len(existing) |-> before[existing[k]]]
@@ -302,12 +343,18 @@ CreateStep ==
   /\ pc = "create"
   /\ IF i > Len(pending) THEN pc' = "delete" /\ UNCHANGED <<i, created, newc, store>>
      ELSE LET d == CreateDecision(cfg.plat, inp.var, cfg.max, ListedComments, pending[i], created) IN
-          /\ i' = i + 1 /\ pc' = pc
-          /\ IF d = "create"
-             THEN LET c == Created(cfg.plat, cfg.strip, inp.var, pending[i]) IN
-                  /\ created' = created + 1 /\ newc' = Append(newc, c) /\ store' = Append(store, c)
-             ELSE UNCHANGED <<created, newc, store>>
+          IF d = "create" /\ inp.fault.op = "create" /\ inp.fault.k = created + 1
+          THEN pc' = "aborted" /\ UNCHANGED <<i, created, newc, store>>     \* c.Create failed: return err
+          ELSE /\ i' = i + 1 /\ pc' = pc
+               /\ IF d = "create"
+                  THEN LET c == Created(cfg.plat, cfg.strip, inp.var, pending[i]) IN
+                       /\ created' = created + 1 /\ newc' = Append(newc, c) /\ store' = Append(store, c)
+                  ELSE UNCHANGED <<created, newc, store>>
   /\ UNCHANGED <<cfg, runs, inp, before, existing, pending, j, deleted, prevInp, prevCreates, streak, lastSeed, hist>>
+
+\* Delete calls made by the iterations before the n-th one / errors collected so far
+DelCallsBefore(n) == Cardinality({m \in 1..(n - 1) : DeleteDecision(cfg.plat, inp.var, before[existing[m]], pending) = "delete"})
+ErrsSoFar(n) == DelCallsBefore(n) - Cardinality(deleted)
 
 \* one iteration of `for _, existing := range existingComments`
 DeleteStep ==
@@ -315,64 +362,72 @@ DeleteStep ==
   /\ IF j > Len(existing) THEN pc' = "summary" /\ UNCHANGED <<j, deleted, store>>
      ELSE LET d == DeleteDecision(cfg.plat, inp.var, before[existing[j]], pending) IN
           /\ j' = j + 1 /\ pc' = pc
-          /\ IF d = "delete"
+          /\ IF d = "delete" /\ ~(inp.fault.op = "delete" /\ inp.fault.k = DelCallsBefore(j) + 1)
              THEN /\ deleted' = deleted \cup {existing[j]}
                   \* position in the current store = original position minus earlier deletions
                   /\ store' = RemoveAt(store, existing[j] - Cardinality({x \in deleted : x < existing[j]}))
-             ELSE UNCHANGED <<deleted, store>>
+             ELSE UNCHANGED <<deleted, store>>          \* kept, or c.Delete failed: errs = append(errs, err)
   /\ UNCHANGED <<cfg, runs, inp, before, existing, pending, i, created, newc, prevInp, prevCreates, streak, lastSeed, hist>>
 
-\* the observation of the run that is about to end (state pc = "summary")
+\* the observation of the run that is about to end (state pc = "summary" or "aborted")
+ObsErrs == IF pc = "summary" THEN ErrsSoFar(Len(existing) + 1) ELSE 0
+ObsHit == pc = "aborted" \/ ObsErrs > 0 \/ inp.fault.op = "summary"
 Obs == [plat |-> cfg.plat, max |-> cfg.max, reports |-> inp.reports, var |-> inp.var,
         before |-> before, after |-> store, creates |-> newc, deleted |-> deleted,
-        prevSame |-> (prevInp = inp), prevCreates |-> prevCreates,
-        streak |-> IF prevInp = inp THEN streak + 1 ELSE 1]
+        hit |-> ObsHit, err |-> (pc = "aborted" \/ inp.fault.op = "summary"), nerrs |-> ObsErrs,
+        prevSame |-> SameResults(prevInp, inp), prevCreates |-> prevCreates,
+        streak |-> IF ObsHit THEN 0 ELSE IF SameResults(prevInp, inp) THEN streak + 1 ELSE 1]
 
+\* c.Summary(ctx, dst, s, errs) - or the early return of a failed run
 Summary ==
-  /\ pc = "summary"
+  /\ pc \in {"summary", "aborted"}
   /\ pc' = "idle" /\ runs' = runs + 1
-  /\ prevInp' = inp /\ prevCreates' = Len(newc) /\ streak' = Obs.streak
+  /\ prevInp' = inp /\ prevCreates' = (IF ObsHit THEN 0 - 1 ELSE Len(newc)) /\ streak' = Obs.streak
   \* forget the per-run scratch so that equal stores are equal states
   /\ inp' = NoInp /\ before' = <<>> /\ existing' = <<>> /\ pending' = <<>>
   /\ i' = 0 /\ j' = 0 /\ created' = 0 /\ newc' = <<>> /\ deleted' = {}
   /\ UNCHANGED <<cfg, store, lastSeed, hist>>
 
 Next == \/ pc = "seed" /\ \E k \in 1..Len(CandSeq(cfg.plat)) : Seed(k)
-        \/ \E R \in SUBSET ProbsOf(cfg), v \in Variants : StartRun(R, v)
+        \/ \E R \in SUBSET ProbsOf(cfg), v \in Variants, ft \in Faults : StartRun(R, v, ft)
         \/ CreateStep \/ DeleteStep \/ Summary
 Spec == Init /\ [][Next]_vars
 
 -----------------------------------------------------------------------------
 (* The same machine with one action per run (RunFold; Inv_FoldAgrees shows  *)
 (* on the stepwise machine that both compute the same). Used for the larger *)
-(* bounds and for GEN; the Doc side is an action property here.             *)
-RunAtomic(R, v) ==
+(* bounds; the Doc side is an action property here.                         *)
+RunAtomic(R, v, ft) ==
   /\ pc \in {"seed", "idle"} /\ runs < MaxRuns
-  /\ LET in == [reports |-> R, var |-> v]
-         f == RunFold(cfg, store, MakeComments(R, v), v) IN
+  /\ LET in == [reports |-> R, var |-> v, fault |-> ft]
+         f == RunFold(cfg, store, MakeComments(R, v), v, ft) IN
      /\ store' = f.after
-     /\ prevInp' = in /\ prevCreates' = Len(f.creates)
-     /\ streak' = IF prevInp = in THEN streak + 1 ELSE 1
+     /\ prevInp' = in /\ prevCreates' = (IF f.hit THEN 0 - 1 ELSE Len(f.creates))
+     /\ streak' = IF f.hit THEN 0 ELSE IF SameResults(prevInp, in) THEN streak + 1 ELSE 1
      /\ hist' = [seeds |-> IF pc = "seed" THEN store ELSE hist.seeds, runs |-> Append(hist.runs, in)]
   /\ pc' = "idle" /\ runs' = runs + 1
   /\ UNCHANGED <<cfg, inp, before, existing, pending, i, j, created, newc, deleted, lastSeed>>
 
 MacroNext == \/ pc = "seed" /\ \E k \in 1..Len(CandSeq(cfg.plat)) : Seed(k)
-             \/ \E R \in SUBSET ProbsOf(cfg), v \in Variants : RunAtomic(R, v)
+             \/ \E R \in SUBSET ProbsOf(cfg), v \in Variants, ft \in Faults : RunAtomic(R, v, ft)
 MacroSpec == Init /\ [][MacroNext]_vars
 \* GEN (simulation): a case is the configuration, the seeded comments and the run inputs; what the runs do
 \* is computed by JUDGE (RunFold) when the recorded behaviour is validated, so it is not computed here.
-\* TLC picks uniformly among the four top-level disjuncts that are enabled, then among successors.
-GenRun(R, v) ==
+\* TLC picks uniformly among the top-level disjuncts that are enabled, then among successors.
+GenRun(R, v, ft) ==
   /\ pc \in {"seed", "idle"} /\ runs < MaxRuns
-  /\ hist' = [seeds |-> IF pc = "seed" THEN store ELSE hist.seeds, runs |-> Append(hist.runs, [reports |-> R, var |-> v])]
+  /\ hist' = [seeds |-> IF pc = "seed" THEN store ELSE hist.seeds,
+              runs |-> Append(hist.runs, [reports |-> R, var |-> v, fault |-> ft])]
   /\ pc' = "idle" /\ runs' = runs + 1
   /\ UNCHANGED <<cfg, store, inp, before, existing, pending, i, j, created, newc, deleted,
                  prevInp, prevCreates, streak, lastSeed>>
+LastRun == hist.runs[Len(hist.runs)]
 GenNext == \/ pc = "seed" /\ \E k \in 1..Len(CandSeq(cfg.plat)) : Seed(k)
-           \/ runs < MaxRuns /\ \E R \in SUBSET ProbsOf(cfg), v \in Variants : GenRun(R, v)
+           \/ runs < MaxRuns /\ \E R \in SUBSET ProbsOf(cfg), v \in Variants : GenRun(R, v, NoFault)
            \/ /\ runs >= 1 /\ runs < MaxRuns                        \* the same results again (a re-run of the CI job)
-              /\ GenRun(hist.runs[Len(hist.runs)].reports, hist.runs[Len(hist.runs)].var)
+              /\ GenRun(LastRun.reports, LastRun.var, NoFault)
+           \/ /\ runs >= 1 /\ runs < MaxRuns /\ Faults # {NoFault}    \* ... during which the platform fails once
+              /\ \E ft \in Faults \ {NoFault} : GenRun(LastRun.reports, LastRun.var, ft)
            \/ /\ pc = "idle" /\ runs = MaxRuns /\ pc' = "done"     \* Finish: a single successor, so one CASE per trace
               /\ UNCHANGED <<cfg, store, runs, inp, before, existing, pending, i, j, created, newc, deleted,
                              prevInp, prevCreates, streak, lastSeed, hist>>
@@ -380,17 +435,19 @@ GenSpec == Init /\ [][GenNext]_vars
 
 \* observation of the run a RunAtomic step performed
 ObsStep ==
-  LET f == RunFold(cfg, store, MakeComments(prevInp'.reports, prevInp'.var), prevInp'.var) IN
-  [plat |-> cfg.plat, max |-> cfg.max, reports |-> prevInp'.reports, var |-> prevInp'.var,
+  LET in == prevInp'
+      f == RunFold(cfg, store, MakeComments(in.reports, in.var), in.var, in.fault) IN
+  [plat |-> cfg.plat, max |-> cfg.max, reports |-> in.reports, var |-> in.var,
    before |-> store, after |-> store', creates |-> f.creates, deleted |-> f.deleted,
-   prevSame |-> (prevInp = prevInp'), prevCreates |-> prevCreates, streak |-> streak']
+   hit |-> f.hit, err |-> f.err, nerrs |-> f.nerrs,
+   prevSame |-> SameResults(prevInp, in), prevCreates |-> prevCreates, streak |-> streak']
 StepOK == (runs' = runs + 1) =>
   LET bad == DocFails(ObsStep) IN IF bad = {} THEN TRUE ELSE PrintT(<<"LEAD", ToJson(bad)>>) /\ FALSE
 Prop_C17 == [][StepOK]_vars
 
 -----------------------------------------------------------------------------
 (* Properties (checked when a run is complete)                              *)
-AtEnd == pc = "summary"
+AtEnd == pc \in {"summary", "aborted"}
 Inv_Covered    == AtEnd => Covered(Obs)
 Inv_KeepsCovered == AtEnd => KeepsCovered(Obs)
 Inv_NoTwin     == AtEnd => NoTwin(Obs)
@@ -399,14 +456,18 @@ Inv_Foreign    == AtEnd => ForeignUntouched(Obs)
 Inv_Idempotent == AtEnd => Idempotent(Obs)
 Inv_Converges  == AtEnd => Converges(Obs)
 Inv_Accounting == AtEnd => Accounting(Obs)
+Inv_ErrReported == AtEnd => ErrReported(Obs)
 \* the stepwise machine and the fold agree
 Inv_FoldAgrees == AtEnd =>
-  LET f == RunFold(cfg, before, pending, inp.var) IN
-  f.after = store /\ f.creates = newc /\ f.deleted = deleted /\ f.listed = existing
+  LET f == RunFold(cfg, before, pending, inp.var, inp.fault) IN
+  /\ f.after = store /\ f.creates = newc /\ f.deleted = deleted /\ f.listed = existing
+  /\ f.hit = Obs.hit /\ f.err = Obs.err /\ f.nerrs = Obs.nerrs
 
 \* vacuity guards (checked to be *violated* in a separate configuration)
 Never_IdempotentFires == ~(AtEnd /\ Obs.prevSame /\ Obs.prevCreates >= 0 /\ Obs.prevCreates < Obs.max /\ Len(pending) > 0)
 Never_ConvergesLate   == ~(AtEnd /\ Obs.max = 1 /\ Obs.streak = 3 /\ Cardinality(Classes(Obs.reports)) = 3)
+Never_DeleteFails     == ~(AtEnd /\ Obs.nerrs > 0)
+Never_CreateFails     == ~(pc = "aborted" /\ inp.fault.op = "create")
 
 \* GEN: one case per finished behaviour
 EmitCase == (pc = "done") =>
